@@ -9,21 +9,28 @@ for f in ("/tmp/cf/results.jsonl",):
             d = json.loads(l)
             res[d["name"]] = d
 det = {}
+ONLY = os.environ.get("ONLY", "")
 for f in sys.argv[1:]:
     for l in open(f):
-        m = re.match(r"/tmp/mut/(C\d+)/(\d)/patch.diff: OK detected_by=(\S+)", l)
+        m = re.match(r"/tmp/mut(2?)/(C\d+)/(\d)/patch.diff: OK detected_by=(\S+)", l)
         if m:
-            det["%s-%s" % (m.group(1), m.group(2))] = [] if m.group(3) == "-" else m.group(3).split(",")
+            det["%s%s-%s" % ("r2-" if m.group(1) else "", m.group(2), m.group(3))] = [] if m.group(4) == "-" else m.group(4).split(",")
 n = 0
 for name, d in sorted(res.items()):
     if not (d.get("demo_passes_without_patch") and d.get("demo_fails_with_patch") and d.get("suite_passes_with_patch")):
         print("NOT CONFIRMED", name, d)
         continue
     src = d["mutant"]
-    dst = os.path.join("/verif/seeded", name)
+    if ONLY and not name.startswith(ONLY):
+        continue
+    # round-2 changes are stored as <property>-r2-<k>
+    dname = re.sub(r"^r2-(C\d+)-(\d)$", r"\1-r2-\2", name)
+    dst = os.path.join("/verif/seeded", dname)
     os.makedirs(dst, exist_ok=True)
     shutil.copy(os.path.join(src, "patch.diff"), dst)
-    demo = [f for f in os.listdir(src) if f.startswith("demo_") and f.endswith(".rs")][0]
+    demo = [f for f in os.listdir(src) if f.startswith("demo") and f.endswith(".rs")][0]
+    if os.path.exists(os.path.join(src, "patch.orig.diff")):
+        shutil.copy(os.path.join(src, "patch.orig.diff"), dst)
     shutil.copy(os.path.join(src, demo), dst)
     meta = json.load(open(os.path.join(src, "meta.json")))
     out = {
@@ -44,6 +51,8 @@ for name, d in sorted(res.items()):
         },
         "detected_by_checks": det.get(name),
     }
+    if meta.get("rebased"):
+        out["rebased"] = meta["rebased"]
     json.dump(out, open(os.path.join(dst, "meta.json"), "w"), indent=1)
     n += 1
 print("assembled", n)
